@@ -303,3 +303,30 @@ def run(ctx, rep):
                         hit = n
                 if hit is not None:
                     rep.violation("C15.3", construct_of(f, "writes-readout-state"), f"`{ast.unparse(hit)[:70]}` changes the readout list or the frequency counters of a subcircuit outside accept_readout(): the two are no longer updated together, so relative frequencies stop being the counts of the recorded readouts", f"{f.path}:{hit.lineno}")
+
+    # ------------------------------------------------------------ C15.7
+    rep.rule("C15.7", "every view takes its width n from the one accessor `measured_qubits` (which result classes for other back ends override), never from the trace directly", floor=3)
+    n7 = 0
+    for f in ix.functions.values():
+        if f.module != "jaqalpaq.core.result" or isinstance(f.node, ast.Lambda):
+            continue
+        fl7 = None
+        for nd in walk_no_nested(f.node):
+            if isinstance(nd, ast.Call) and isinstance(nd.func, ast.Attribute) and nd.func.attr in ("zfill", "rjust", "ljust") and nd.args:
+                if fl7 is None:
+                    fl7 = FuncFlow(ix, T, f)
+                n7 += 1
+                ids, roots = fl7.depends(nd.args[0])
+                exprs = [nd.args[0]] + list(roots)
+                via_accessor = any(isinstance(m, ast.Attribute) and m.attr == "measured_qubits" for e in exprs for m in ast.walk(e))
+                via_trace = any(isinstance(m, ast.Attribute) and m.attr in ("used_qubits",) for e in exprs for m in ast.walk(e))
+                cons = construct_of(f, "width-source")
+                loc = f"{f.path}:{nd.lineno}"
+                if via_trace and not via_accessor and f.name != "measured_qubits":
+                    rep.violation("C15.7", cons, f"`{ast.unparse(nd)}` pads to the trace's qubit list instead of `measured_qubits`: a result class that supplies its own measured qubits (no trace) cannot produce its string view, and the views can disagree on n", loc)
+                elif via_accessor:
+                    rep.ok("C15.7", cons, "width is len(measured_qubits)", loc)
+                else:
+                    rep.undecided("C15.7", cons, f"width `{ast.unparse(nd.args[0])}` not traced to measured_qubits", loc)
+    if n7 == 0:
+        raise AnalysisError("C15.7: no padded bit-string conversion found in core/result.py")
